@@ -2,5 +2,6 @@ SPECIFICATION Spec
 CONSTANTS
   MaxTests = 2
   MaxOps = 1
+  Family = "all"
 INVARIANTS CarriesOver FileIsSession
 CHECK_DEADLOCK FALSE
